@@ -31,7 +31,7 @@ LEVEL = "model_checking"
 RULE = ("exhaustive walk of onnx.defs (domain ''): every opset in the tier x every usable op visible there x every "
         "literal position (variadic: two slots) x {optional neighbours absent, all inputs present} x every "
         "schema-allowed sibling dtype in the 7-type pool x 9 literals (the 8 of the property record and 0.1); plus, "
-        "per pair opset, every ordered pair of 14 literals in 5 two-literal call shapes x sibling dtypes (quick: the "
+        "per pair opset, every ordered pair of 16 literals in 5 two-literal call shapes x sibling dtypes (quick: the "
         "second sibling of shape `two` ranges over {same, f32, i64}; thorough: all 7).  Each case is observed in 4 "
         "front ends (static, eager, builder, builder with untyped inputs); pair cases also observe every literal "
         "alone in each slot.  distinct_nontrivial = distinct (op, since_version, position, fill, dtype, literal) / "
